@@ -570,6 +570,11 @@ func (m *ConnectMessage) decodeMessage(src []byte) (int, error) {
 			return total, fmt.Errorf("connect/decodeMessage: Will Topic is not valid UTF-8 or contains U+0000")
 		}
 
+		// The will is published under this topic: it must be a topic name
+		if !ValidTopic(m.willTopic) {
+			return total, fmt.Errorf("connect/decodeMessage: Invalid will topic name (%s). Must not be empty or contain wildcard characters", string(m.willTopic))
+		}
+
 		m.willMessage, n, err = readLPBytes(src[total:])
 		total += n
 		if err != nil {
